@@ -133,10 +133,20 @@ class IpcCommand:
             return 0
         elif isinstance(ret, tuple):
             code, response = ret
-            return f"{code}\x07{response}"
+            return f"{code}\x07{IpcCommand._single_line(response)}"
         elif isinstance(ret, (int, str)):
-            return f"0\x07{ret}"
+            return f"0\x07{IpcCommand._single_line(ret)}"
         raise TypeError(f"unsupported return status type: {type(ret)}")
+
+    @staticmethod
+    def _single_line(response):
+        """Fold a response into one line.
+
+        The bash side reads exactly one line per request, so embedded newlines
+        (e.g. stderr of external commands) would leave the remaining lines in
+        the pipe to be taken for the replies to later requests.
+        """
+        return " ".join(filter(None, str(response).split("\n")))
 
     def parse_args(self, options, args):
         """Parse internal args passed from the bash side."""
